@@ -136,6 +136,14 @@ func run(prop, tier, repo, verif, tags string, seed int, rule rules.Rule) (code 
 			extra[k] = v
 		}
 	}
+	if os.Getenv("F2G_EMIT_FINDINGS") != "" {
+		// developer aid: print candidate finding lines for review (never written to the findings file)
+		for _, o := range res.Obligations {
+			if o.Verdict == report.Violation {
+				fmt.Printf("CANDIDATE finding: property=%s key=%s :: %s\n", prop, o.Key, o.Detail)
+			}
+		}
+	}
 	out := res.Finish(verif, tier, seed, time.Since(start).Seconds(), findings, extra)
 	fmt.Printf("[%s] %d obligations, %d known finding(s), %d violation(s), %.1fs\n", prop, len(res.Obligations), len(out.Known), len(out.Violations), time.Since(start).Seconds())
 	return out.ExitCode
